@@ -1,7 +1,7 @@
 (* Trace validator for Abs(thread descriptor) (coq/Sched/DescModel.v), shared by the C01 and C13 checks.
    Input: blocks
-     begin <nthreads> <default-stacksize> [cfg]        cfg: now | prefix_nullid | prefix_det   (default now)
-     call <j> create <c> <none|attr[:pf][:det][:ss=N][:oldinit]> <nullid 0|1> <arg>
+     begin <nthreads> <default-stacksize> [cfg [gcf]]  cfg: now | prefix_nullid | prefix_det; gcf: global child_first (default 1)
+     call <j> create <c> <none|attr[:pf][:cf][:det][:ss=N][:gs=N][:stk=N][:oldinit]> <nullid 0|1> <arg>
      call <j> join|tryjoin|timedjoin|detach <t>
      call <j> return|exit <v>
      tick <j> <m|c> <label> <val|-> <target|-> <st> <jt|-> <det> <lk>      (P lines, E create.start / free.stack)
@@ -32,7 +32,10 @@ let parse_attr spec =
     let a = ref ((if old then attr_init_prefix else attr_init) !glob attr_dirty) in
     Stdlib.List.iter (fun p ->
       if p = "pf" then a := attr_setchildfirst !a (zs "0")
+      else if p = "cf" then a := attr_setchildfirst !a (zs "1")
       else if p = "det" then a := attr_setdetachstate !a (zs "1")
+      else if starts "gs=" p then a := attr_setguardsize !a (zs (Stdlib.String.sub p 3 (Stdlib.String.length p - 3)))
+      else if starts "stk=" p then a := attr_setstack !a (zs "4096") (zs (Stdlib.String.sub p 4 (Stdlib.String.length p - 4)))
       else if starts "ss=" p then a := attr_setstacksize !a (zs (Stdlib.String.sub p 3 (Stdlib.String.length p - 3)))
       else ()) parts;
     Some !a
@@ -77,8 +80,10 @@ let () =
     incr ln;
     (match split l with
      | "begin" :: nt :: ss :: rest ->
-         glob := { g_stacksize = zs ss; g_guardsize = zs "0"; g_child_first = zs "1" };
-         cfg := (match rest with ["prefix_nullid"] -> cfg_prefix_nullid | ["prefix_det"] -> cfg_prefix_det | _ -> cfg_now);
+         (* optional 4th word: the global default creation order (myth_globalattr child_first) *)
+         glob := { g_stacksize = zs ss; g_guardsize = zs "0";
+                   g_child_first = (match rest with [_; gcf] -> zs gcf | _ -> zs "1") };
+         cfg := (match rest with "prefix_nullid" :: _ -> cfg_prefix_nullid | "prefix_det" :: _ -> cfg_prefix_det | _ -> cfg_now);
          st := init_state (ni (int_of_string nt)); ln := 0; cnt := 0; sil := 0; failed := None; Hashtbl.reset tally; amode := false
      | ["end"] -> (match !failed with
                    | Some m -> print_endline m
